@@ -280,7 +280,7 @@ struct Scn {
     void run(const std::vector<std::vector<std::string>> &cops, const std::vector<int> &ks, const std::vector<int> &sched) {
         if constexpr (has_arg) gen.emplace(body_a());
         else gen.emplace(body_v());
-        S().name_obj(&gen->_promise->_block, "block");
+        S().name_obj(&gen->VN_generator__promise->VN_generator_promise_type__block, "block");
         S().spawn([this, &cops] { consumer(cops); });
         S().spawn([&ks] { completer(ks); });
         bool ok = S().run(sched);
